@@ -33,10 +33,10 @@ type hooks struct {
 }
 
 type trace struct {
-	SolveCalls, ProveCalls                                       int
+	SolveCalls, ProveCalls                                              int
 	SolveIns, UsedIns, GenuineOuts, GivenOuts, GenuineProof, GivenProof []*big.Int
-	OwnProofErr                                                  error
-	EvalMismatch                                                 bool
+	OwnProofErr                                                         error
+	EvalMismatch                                                        bool
 }
 
 type curveKit struct {
